@@ -118,3 +118,15 @@ proof fn lemma_undo_n_add(m: Mach, log: Seq<ReverseStep>, c: Bases, a: nat, b: n
         assert((a + b - 1) as nat == (a - 1) as nat + b);
     }
 }
+
+// entries other than SetIp never move the instruction pointer
+proof fn lemma_undo_n_ip(m: Mach, log: Seq<ReverseStep>, c: Bases, n: nat)
+    requires undo_n(m, log, c, n) is Some
+    ensures (undo_n(m, log, c, n)->0).0.ip == m.ip
+    decreases n
+{
+    if n > 0 {
+        let (m1, extra) = undo(m, c, log.last())->0;
+        lemma_undo_n_ip(m1, log.drop_last() + extra, c, (n - 1) as nat);
+    }
+}
